@@ -65,8 +65,11 @@ class C20(Prop):
                 base["comment_val"] = "100% legit = yes: [really] %(x)s"
                 base["source_val"] = "50%off"
                 base["url_suffix"] = "?k=%20a%2Fb&x=1"
-            out.append(dict(base, route="kw"))
-            out.append(dict(base, route="config", announce_key=("announce", "tracker")[g % 2]))
+            if g % 4 == 3:
+                base["out_slash"] = True
+            out.append(dict(base, route="kw", kw_str=g % 2 == 0))
+            out.append(dict(base, route="config", announce_key=("announce", "tracker")[g % 2],
+                            config_where=("path", "cwd", "home", "homeconfig")[(g // 2) % 4]))
             out.append(dict(base, route="config", explicit_false=True))     # switches spelled out as false
             if "G" not in S:        # the interactive dialog has no question for alignment
                 out.append(dict(base, route="interactive"))
@@ -88,7 +91,7 @@ class C20(Prop):
                 if tuple(sh) in seen:
                     continue
                 seen.add(tuple(sh))
-                out.append(dict(base, route="cli", shape=sh, spelling=("create", "new")[k % 2],
+                out.append(dict(base, route="cli", shape=sh, spelling=("create", "new", "implicit")[(k + g) % 3],
                                 announce_flag=("-a", "--announce", "--tracker")[k % 3],
                                 magnet_flag=k % 4 == 1, pre=([], ["-q"], ["-v"])[k % 3]))
         return out
@@ -111,7 +114,7 @@ class C20(Prop):
         if case["route"] == "cli" and case["shape"] and case["shape"][0] == "PATH":
             return None
         return (case["group"], case["route"], tuple(case.get("shape", [])), case.get("announce_key"),
-                case.get("explicit_false"))
+                case.get("explicit_false"), case.get("config_where"), case.get("spelling"), case.get("kw_str"))
 
     def signature(self, case, rec, clause):
         return "%s/%s" % (clause, (case or {}).get("route", "?"))
